@@ -23,7 +23,7 @@ func init() {
 		&Rule{ID: "WR-ENUM", Doc: "wire converters (operators, term kinds, policy kinds) are total, mutually inverse and name-consistent", Run: ruleWREnum, Min: 50},
 		&Rule{ID: "WR-SYMS", Doc: "default symbol table, offset 1024 and per-block symbol split points are the specified ones", Run: ruleWRSyms, Min: 8},
 		&Rule{ID: "WR-FIELDS", Doc: "every converter reads every field of its source structure and sets every field of its result", Run: ruleWRFields, Min: 20},
-		&Rule{ID: "WR-SYMRANGE", Doc: "every decoded block is refused if it uses a symbol or variable index that the table declared so far does not define (a later block must not be able to give an earlier term its meaning)", Run: ruleWRSymRange, Min: 2},
+		&Rule{ID: "WR-SYMRANGE", Doc: "every decoded block is refused if it uses a symbol or variable index that the table declared so far does not define (a later block must not be able to give an earlier term its meaning)", Run: ruleWRSymRange, Min: 1},
 		&Rule{ID: "WR-SYMTAB", Doc: "the token-wide symbol table is a fresh clone extended with the symbols of exactly the blocks the token holds, in block order; new blocks must be disjoint from it", Run: ruleWRSymtab, Min: 8},
 		&Rule{ID: "WR-ELEMWISE", Doc: "element-wise conversion loops produce exactly one output element per input element", Run: ruleWRElemwise, Min: 10},
 		&Rule{ID: "WR-VERSION", Doc: "blocks outside the supported schema version are rejected; encoders write the supported version", Run: ruleWRVersion, Min: 4},
@@ -45,9 +45,9 @@ var frozenSchema = map[string]string{
 	"TermSet.set":      "repeated TermV2 1",
 	"ExpressionV2.ops": "repeated Op 1",
 	"Op.value":         "oneof TermV2 1", "Op.unary": "oneof OpUnary 2", "Op.Binary": "oneof OpBinary 3",
-	"OpUnary.kind":     "required Kind 1",
-	"OpBinary.kind":    "required Kind 1",
-	"Policy.queries":   "repeated RuleV2 1", "Policy.kind": "required Kind 2",
+	"OpUnary.kind":   "required Kind 1",
+	"OpBinary.kind":  "required Kind 1",
+	"Policy.queries": "repeated RuleV2 1", "Policy.kind": "required Kind 2",
 	"AuthorizerPolicies.symbols": "repeated string 1", "AuthorizerPolicies.version": "optional uint32 2", "AuthorizerPolicies.facts": "repeated FactV2 3", "AuthorizerPolicies.rules": "repeated RuleV2 4", "AuthorizerPolicies.checks": "repeated CheckV2 5", "AuthorizerPolicies.policies": "repeated Policy 6",
 }
 
@@ -542,7 +542,7 @@ func ruleWRSyms(p *Prog, r *Reporter) {
 		// the method and the helpers of the table it delegates to (one level)
 		scope := []*ssa.Function{fn}
 		for _, c := range callsIn(fn) {
-			if h := c.Common().StaticCallee(); h != nil && h != fn && h.Blocks != nil && h.Signature.Recv() != nil && fn.Signature.Recv() != nil && types.Identical(deref(h.Signature.Recv().Type()), deref(fn.Signature.Recv().Type())) {
+			if h := c.Common().StaticCallee(); h != nil && h != fn && h.Blocks != nil && h.Pkg == fn.Pkg {
 				scope = append(scope, h)
 			}
 		}
@@ -554,6 +554,21 @@ func ruleWRSyms(p *Prog, r *Reporter) {
 			for _, in := range b.Instrs {
 				bo, ok := in.(*ssa.BinOp)
 				if !ok {
+					continue
+				}
+				// a length pre-filter on the string looked up: exact iff it only excludes strings longer than every default symbol
+				if k, isC := constInt(bo.Y); isC && strings.HasPrefix(p.D(bo.X), "len(") && isStringLen(bo.X) {
+					maxLen := 0
+					for _, ds := range frozenDefaultSymbols {
+						if len(ds) > maxLen {
+							maxLen = len(ds)
+						}
+					}
+					switch {
+					case bo.Op == token.GTR && int(k) >= maxLen, bo.Op == token.GEQ && int(k) > maxLen:
+					default:
+						bad = fmt.Sprintf("the string looked up is filtered by its length against %d, but the longest default symbol has %d characters: a default symbol is not found, interned as a new symbol and declared in the block's own table", k, maxLen)
+					}
 					continue
 				}
 				for _, op := range []ssa.Value{bo.X, bo.Y} {
@@ -1123,48 +1138,7 @@ func ruleWRSymtab(p *Prog, r *Reporter) {
 				// Extend drops strings the table already holds: every decoded table must be checked to add only new
 				// symbols (a disjointness test before, or a length comparison after), otherwise later indexes shift
 				for _, e := range extendCalls {
-					okNew := false
-					// after: the path onwards from Extend is guarded by a comparison involving the table's length
-					for _, bb := range fn.Blocks {
-						if bb != e.Block() && !e.Block().Dominates(bb) {
-							continue
-						}
-						iff := blockIf(bb)
-						if iff == nil {
-							continue
-						}
-						bo, isB := iff.Cond.(*ssa.BinOp)
-						if !isB || (bo.Op != token.NEQ && bo.Op != token.EQL) {
-							continue
-						}
-						lenOf := func(v ssa.Value) bool {
-							return dependsOn(v, func(x ssa.Value) bool {
-								c, ok := x.(*ssa.Call)
-								if !ok || len(c.Call.Args) == 0 {
-									return false
-								}
-								if f := c.Call.StaticCallee(); f != nil && f.Name() == "Len" && p.D(c.Call.Args[0]) == p.D(e.Call.Args[0]) && instrDominates(e, c) {
-									return true
-								}
-								return false
-							})
-						}
-						if lenOf(bo.X) || lenOf(bo.Y) {
-							bad := bb.Succs[0]
-							if bo.Op == token.EQL {
-								bad = bb.Succs[1]
-							}
-							if onlyErrorReturnsFrom(bad) {
-								okNew = true
-							}
-						}
-					}
-					// before: IsDisjoint(table, block symbols) with the overlapping case refused
-					for _, g := range guardsOf(e.Block()) {
-						if c, isC := g.cond.(*ssa.Call); isC && g.val && isCallTo(&c.Call, "datalog.SymbolTable.IsDisjoint") && p.D(c.Call.Args[1]) == p.D(e.Call.Args[1]) {
-							okNew = true
-						}
-					}
+					okNew := p.extendAddsOnlyNew(fn, e)
 					r.Check(okNew, p.instrPos(e), name, "decoded table adds only new symbols", "a block table that repeats a known symbol is refused", "the decoder extends the token-wide table with a block's symbols without checking that all of them are new: Extend silently drops known strings (default symbols, earlier blocks', repeats) and the block's later indexes resolve to other strings, which a later block can supply")
 				}
 			default:
@@ -1173,6 +1147,54 @@ func ruleWRSymtab(p *Prog, r *Reporter) {
 			}
 		}
 	}
+}
+
+// extendAddsOnlyNew: the SymbolTable.Extend call e is accompanied by a test that every received symbol was new
+// (a length comparison after it whose failing side only returns errors, or a disjointness test before it).
+func (p *Prog) extendAddsOnlyNew(fn *ssa.Function, e *ssa.Call) bool {
+	okNew := false
+	// after: the path onwards from Extend is guarded by a comparison involving the table's length
+	for _, bb := range fn.Blocks {
+		if bb != e.Block() && !e.Block().Dominates(bb) {
+			continue
+		}
+		iff := blockIf(bb)
+		if iff == nil {
+			continue
+		}
+		bo, isB := iff.Cond.(*ssa.BinOp)
+		if !isB || (bo.Op != token.NEQ && bo.Op != token.EQL) {
+			continue
+		}
+		lenOf := func(v ssa.Value) bool {
+			return dependsOn(v, func(x ssa.Value) bool {
+				c, ok := x.(*ssa.Call)
+				if !ok || len(c.Call.Args) == 0 {
+					return false
+				}
+				if f := c.Call.StaticCallee(); f != nil && f.Name() == "Len" && p.D(c.Call.Args[0]) == p.D(e.Call.Args[0]) && instrDominates(e, c) {
+					return true
+				}
+				return false
+			})
+		}
+		if lenOf(bo.X) || lenOf(bo.Y) {
+			bad := bb.Succs[0]
+			if bo.Op == token.EQL {
+				bad = bb.Succs[1]
+			}
+			if onlyErrorReturnsFrom(bad) {
+				okNew = true
+			}
+		}
+	}
+	// before: IsDisjoint(table, block symbols) with the overlapping case refused
+	for _, g := range guardsOf(e.Block()) {
+		if c, isC := g.cond.(*ssa.Call); isC && g.val && isCallTo(&c.Call, "datalog.SymbolTable.IsDisjoint") && p.D(c.Call.Args[1]) == p.D(e.Call.Args[1]) {
+			okNew = true
+		}
+	}
+	return okNew
 }
 
 // ---- WR-SYMRANGE
@@ -1262,4 +1284,80 @@ func ruleWRSymRange(p *Prog, r *Reporter) {
 	if n == 0 {
 		r.Bad("?", "biscuit", "decoder", "no function decodes a pb.Biscuit envelope")
 	}
+	// the other decoder that builds a table from received symbols: the policy snapshot loader
+	for _, fn := range p.funcsIn("biscuit") {
+		var snap *ssa.Parameter
+		for _, pa := range fn.Params {
+			if isNamed(deref(pa.Type()), pkgPathOf("pb"), "AuthorizerPolicies") {
+				snap = pa
+			}
+		}
+		if snap == nil {
+			continue
+		}
+		name := p.FuncName(fn)
+		for _, c := range callsIn(fn) {
+			e, ok := c.(*ssa.Call)
+			if !ok || !isCallTo(&e.Call, "datalog.SymbolTable.Extend") {
+				continue
+			}
+			r.Check(p.extendAddsOnlyNew(fn, e), p.instrPos(e), name, "snapshot table adds only new symbols", "a snapshot table that repeats a known symbol is refused", "the snapshot's symbols extend the authorizer's table without checking that all of them are new: Extend silently drops known strings and every later index of the snapshot resolves to another string")
+			// the content is validated against the extended table before any of it is used
+			var val *ssa.Call
+			for _, c2 := range callsIn(fn) {
+				v2, isV := c2.(*ssa.Call)
+				if !isV || v2.Call.StaticCallee() == nil || !p.isRepoFunc(v2.Call.StaticCallee()) || !p.symbolRangeValidator(v2.Call.StaticCallee()) || !instrDominates(e, v2) {
+					continue
+				}
+				whole := false
+				for _, a := range v2.Call.Args {
+					if g, isG := unwrap(a).(*ssa.Call); isG && g.Call.StaticCallee() != nil && p.isRepoFunc(g.Call.StaticCallee()) && len(g.Call.Args) > 0 && g.Call.Args[0] == ssa.Value(snap) {
+						fields := map[string]bool{}
+						for _, f := range withClosures(g.Call.StaticCallee()) {
+							for _, b := range f.Blocks {
+								for _, in := range b.Instrs {
+									if fa, isFA := in.(*ssa.FieldAddr); isFA {
+										fields[fieldName(fa)] = true
+									}
+								}
+							}
+						}
+						whole = fields["Facts"] && fields["Rules"] && fields["Checks"] && fields["Policies"] && fields["Queries"]
+					}
+				}
+				errEnds := false
+				for _, nb := range nilTests(v2) {
+					if nb.nonNil != nil && onlyErrorReturnsFrom(nb.nonNil) {
+						errEnds = true
+					}
+				}
+				if whole && errEnds {
+					val = v2
+				}
+			}
+			okUse := val != nil
+			if val != nil {
+				for _, c3 := range callsIn(fn) {
+					if m, isW := isWorldMethod(c3.Common()); isW && (m == "AddFact" || m == "AddRule") && !instrDominates(val, c3.(ssa.Instruction)) {
+						okUse = false
+					}
+				}
+			}
+			r.Check(okUse, p.instrPos(e), name, "snapshot symbols in range", "facts, rules, checks and policy queries of the snapshot are validated against the extended table before anything is loaded", "a policy snapshot is loaded without checking that its symbol and variable indexes are defined by its table: an undeclared index becomes a placeholder name, so the restored authorizer decides differently from the saved one and malformed bytes are accepted")
+		}
+	}
+}
+
+// isStringLen: v is len(x) of a string.
+func isStringLen(v ssa.Value) bool {
+	c, ok := v.(*ssa.Call)
+	if !ok {
+		return false
+	}
+	bi, isB := c.Call.Value.(*ssa.Builtin)
+	if !isB || bi.Name() != "len" {
+		return false
+	}
+	b, isBasic := c.Call.Args[0].Type().Underlying().(*types.Basic)
+	return isBasic && b.Info()&types.IsString != 0
 }
